@@ -1,6 +1,7 @@
 import NxProofs.Admission
 import NxProofs.HonestPath
 import NxProofs.LoginPath
+import NxProofs.C05Dst
 import NxProps.C04
 
 /-!
@@ -136,5 +137,42 @@ theorem backend_login_is_admitted_as_issued_user (bcfg : Backend.Cfg) (a : Backe
 example : Conn.checkConnectionResponse
     { (Conn.new C04.toyEnv (some 1) 1 0xFFFFFFFF 3 ("a", 1) 15 10 ("b", 2) 1 10) with credentials := some ⟨1, 2, [], []⟩ }
     (u32le 4 ++ u32le 0) = none := by decide
+
+/-! ## the server's time zone, daylight saving included (stamp = local civil time; lifetime = real time)
+
+`Zone.localToSeconds` is C15's model of CPython's `local_to_seconds(fold = 0)` behind `DateTime.timestamp()`;
+`Zone.zTwo T a b` a zone with one rule change (offset `a` before instant `T`, `b` from `T` on). The L1 model above takes a
+fixed offset; these theorems carry the freshness clause across a rule change. Full statement wanted: for every tz-database
+zone. Proved: any zone that shows one rule change (setting the clock back by at most 24 h) around the instants involved. -/
+
+/-- **a ticket admitted by the freshness test was issued at most 120 s of REAL time ago**, on both sides of and inside a
+    repeated / skipped hour: the stamp never decodes to an instant later than the issue instant. -/
+theorem dst_admitted_is_fresh_partial (T a b issued now : Int) (hb : a - b ≤ 86400)
+    (hadm : ¬ Nex.Zone.localToSeconds (Nex.Zone.zTwo T a b) (Nex.Zone.localOf (Nex.Zone.zTwo T a b) issued) < now - 120) :
+    now - issued ≤ 120 :=
+  C05Dst.admitted_is_fresh T a b issued now hb hadm
+
+/-- a fresh ticket passes the freshness test unless it was stamped during the second pass of a repeated hour -/
+theorem dst_fresh_is_admitted (T a b issued now : Int) (hb : a - b ≤ 86400)
+    (h : ¬ (T ≤ issued ∧ issued < T + (a - b))) (hf : now - issued ≤ 120) :
+    ¬ Nex.Zone.localToSeconds (Nex.Zone.zTwo T a b) (Nex.Zone.localOf (Nex.Zone.zTwo T a b) issued) < now - 120 :=
+  C05Dst.fresh_is_admitted T a b issued now hb h hf
+
+/-- observation on the code as it is: a ticket stamped during the second pass of a repeated hour (longer than 120 s) is
+    refused however fresh it is (the stamp decodes to the first pass). Not a violation of the property's 'only if'. -/
+theorem dst_fresh_in_second_pass_refused (T a b issued now : Int) (hb : a - b ≤ 86400)
+    (h : T ≤ issued ∧ issued < T + (a - b)) (hd : 120 < a - b) (hn : issued ≤ now) :
+    Nex.Zone.localToSeconds (Nex.Zone.zTwo T a b) (Nex.Zone.localOf (Nex.Zone.zTwo T a b) issued) < now - 120 :=
+  C05Dst.fresh_in_fold_refused T a b issued now hb h hd hn
+
+/-- non-vacuity: central Europe, 25 Oct 2026 (clock set back at 01:00 UTC): a ticket issued 30 minutes before the change
+    and shown 10 minutes after it is 2400 s old and refused, although its wall-clock stamp (02:30) reads LATER than the
+    wall-clock reading of `now - 120` (02:08) - comparing stamps as wall-clock values would admit it. -/
+example : let z := Nex.Zone.zTwo 1792890000 7200 3600
+    (1792890000 + 600 : Int) - (1792890000 - 1800) = 2400 ∧
+    Nex.Zone.localOf z (1792890000 + 600 - 120) ≤ Nex.Zone.localOf z (1792890000 - 1800) ∧
+    Nex.Zone.localToSeconds z (Nex.Zone.localOf z (1792890000 - 1800)) < 1792890000 + 600 - 120 :=
+  C05Dst.wall_clock_order_admits_stale
+example : ¬ Nex.Zone.localToSeconds (Nex.Zone.zTwo 1000 7200 3600) (Nex.Zone.localOf (Nex.Zone.zTwo 1000 7200 3600) 900) < 1000 - 120 := by decide
 
 end Nx.C05
